@@ -369,13 +369,18 @@ impl Variant {
         if round_right.is_approximately_zero()? {
             Err(VariantError::DivisionByZero)
         } else {
+            // a float is still a float after rounding only when it is beyond the LONG range
             match round_left {
                 Self::VInteger(i_left) => match round_right {
                     Self::VInteger(i_right) => Ok(Self::VInteger(i_left % i_right)),
-                    Self::VLong(_) => Err(VariantError::Overflow),
+                    Self::VLong(_) | Self::VSingle(_) | Self::VDouble(_) => {
+                        Err(VariantError::Overflow)
+                    }
                     _ => Err(VariantError::TypeMismatch),
                 },
-                Self::VLong(_) => Err(VariantError::Overflow),
+                Self::VLong(_) | Self::VSingle(_) | Self::VDouble(_) => {
+                    Err(VariantError::Overflow)
+                }
                 _ => Err(VariantError::TypeMismatch),
             }
         }
